@@ -30,4 +30,5 @@ def run(out, tier):
                         "counterexample is obtained by native replay"]
     eng = mirrun.load_engine(out)
     folder.run_f2(out, eng)
+    folder.run_transform(out, eng)
     kani.run_family(out, F1 + TWINS, expect_fail=TWINS, tier=tier)
